@@ -26,26 +26,27 @@ from peg2smt import abnf, extract, pegenc, recogniser, query  # noqa: E402
 PROPS = {
     'C14': {
         'includes': ['tao/pegtl/contrib/json.hpp'],
-        'tops': [('text', 'tao::pegtl::json::text', 'JSON-text')],
+        # (label, C++ rule, ABNF start symbol, relative cost weight, {tier: N})
+        'tops': [('text', 'tao::pegtl::json::text', 'JSON-text', 1.0, {'quick': 11, 'thorough': 14})],
         'abnf': 'rfc8259.abnf',
-        'N': {'quick': 9, 'thorough': 13},
-        'timeout_s': {'quick': 150, 'thorough': 1100},
-        'cvc5_n': {'quick': 0, 'thorough': 11},
+        'growth': 3.0,
+        'timeout_s': {'quick': 200, 'thorough': 1500},
+        'both_max_n': {'quick': 11, 'thorough': 11},      # n <= this: z3 AND cvc5 must agree; above: cvc5 alone
         'raise_allowed': False,
         'maximum_rule': False,
         'k_samples': {'quick': 4, 'thorough': 8},
     },
     'C20': {
         'includes': ['tao/pegtl/contrib/uri.hpp'],
-        'tops': [('URI', 'tao::pegtl::uri::URI', 'URI'),
-                 ('URI_reference', 'tao::pegtl::uri::URI_reference', 'URI-reference'),
-                 ('absolute_URI', 'tao::pegtl::uri::absolute_URI', 'absolute-URI'),
-                 ('IPv4address', 'tao::pegtl::uri::IPv4address', 'IPv4address'),
-                 ('IPv6address', 'tao::pegtl::uri::IPv6address', 'IPv6address')],
+        'tops': [('URI', 'tao::pegtl::uri::URI', 'URI', 1.0, {'quick': 14, 'thorough': 20}),
+                 ('URI_reference', 'tao::pegtl::uri::URI_reference', 'URI-reference', 3.0, {'quick': 14, 'thorough': 20}),
+                 ('absolute_URI', 'tao::pegtl::uri::absolute_URI', 'absolute-URI', 0.4, {'quick': 14, 'thorough': 20}),
+                 ('IPv4address', 'tao::pegtl::uri::IPv4address', 'IPv4address', 0.0001, {'quick': 16, 'thorough': 16}),
+                 ('IPv6address', 'tao::pegtl::uri::IPv6address', 'IPv6address', 0.001, {'quick': 24, 'thorough': 46})],
         'abnf': 'rfc3986.abnf',
-        'N': {'quick': 12, 'thorough': 20},
-        'timeout_s': {'quick': 150, 'thorough': 1100},
-        'cvc5_n': {'quick': 0, 'thorough': 16},
+        'growth': 1.6,
+        'timeout_s': {'quick': 200, 'thorough': 1500},
+        'both_max_n': {'quick': 12, 'thorough': 13},
         'raise_allowed': True,
         'maximum_rule': True,
         'k_samples': {'quick': 3, 'thorough': 4},
@@ -133,7 +134,9 @@ class Run:
         self.seed = seed
         self.t0 = time.time()
         self.work = tempfile.mkdtemp(prefix='peg2smt-%s-' % prop)
-        self.N = int(os.environ.get('PEG2SMT_N', self.cfg['N'][tier]))
+        self.Ntop = {t[0]: (int(os.environ['PEG2SMT_N']) if os.environ.get('PEG2SMT_N') else t[4][tier]) for t in self.cfg['tops']}
+        self.N = max(self.Ntop.values())
+        self.Nmin = min(self.Ntop.values())
         self.ev = {'rules': None}
         self.notes = []
         self.violations = []
@@ -146,7 +149,7 @@ class Run:
     # ------------------------------------------------------------------ setup
     def setup(self):
         cfg = self.cfg
-        tops = [(l, t) for l, t, _ in cfg['tops']]
+        tops = [(t[0], t[1]) for t in cfg['tops']]
         self.tinfo, self.rules, self.dump_cmd, raw = extract.dump_grammar(cfg['includes'], tops, self.work, cfg['maximum_rule'])
         self.dump_sha = hashlib.sha256(raw.encode()).hexdigest()[:16]
         self.runner = extract.Runner(cfg['includes'], tops, self.work)
@@ -158,7 +161,7 @@ class Run:
         self.grammar = abnf.Grammar(self.abnf_text + '\n' + ext, self.abnf_path)
         self.recog = recogniser.Recogniser(self.grammar)
         self.names = {}
-        for l, _, _ in cfg['tops']:
+        for l in [t[0] for t in cfg['tops']]:
             self.names[l] = extract.reachable(self.rules, self.tinfo[l]['root'])
         allnames = sorted(set(x for v in self.names.values() for x in v))
         self.allnames = allnames
@@ -190,7 +193,7 @@ class Run:
 
     # ------------------------------------------------------------------ concrete evaluation / replay
     def eval_concrete(self, top, data):
-        start = [s for l, _, s in self.cfg['tops'] if l == top][0]
+        start = [t[2] for t in self.cfg['tops'] if t[0] == top][0]
         alg = pegenc.ConcAlg(data)
         pe = pegenc.PegEnc(self.rules, alg, len(data))
         acc, rz = pe.accepts(self.tinfo[top]['root'])
@@ -198,12 +201,21 @@ class Run:
         rfc = dv.rule(start, 0, len(data))
         return ('accept' if acc else 'parse_error' if rz else 'reject'), bool(rfc)
 
+    def check_exception(self, top, data, rv):
+        """C14: never throws; C20: nothing but the must<>-raised parse_error"""
+        ok = ('accept', 'reject', 'parse_error') if self.cfg['raise_allowed'] else ('accept', 'reject')
+        if rv not in ok and not any(v['bytes'] == list(data) and v['top'] == top for v in self.violations):
+            start = [t[2] for t in self.cfg['tops'] if t[0] == top][0]
+            self.violations.append({'property': self.prop, 'top': top, 'bytes': list(data), 'string': repr(bytes(data))[2:-1], 'real': rv,
+                                    'rfc_derives': self.recog.accepts(start, data), 'kind': 'exception not permitted by the property', 'n': len(data), 'mode': 'validation'})
+
     def real_and_rfc(self, items):
         """items: [(top, bytes)] -> [(real verdict, rfc bool by the independent recogniser)]"""
         real = self.runner.run(items)
         out = []
         for (top, data), rv in zip(items, real):
-            start = [s for l, _, s in self.cfg['tops'] if l == top][0]
+            start = [t[2] for t in self.cfg['tops'] if t[0] == top][0]
+            self.check_exception(top, data, rv)
             out.append((rv, self.recog.accepts(start, data)))
         return out
 
@@ -238,7 +250,7 @@ class Run:
 
     def validate_corpus(self):
         strs = self.corpus()
-        items = [(l, b) for l, _, _ in self.cfg['tops'] for b in strs]
+        items = [(t[0], b) for t in self.cfg['tops'] for b in strs]
         truth = self.real_and_rfc(items)
         for (top, b), (rv, rf) in zip(items, truth):
             try:
@@ -258,18 +270,20 @@ class Run:
     def tasks(self):
         cfg = self.cfg
         ts = []
-        cv_n = cfg['cvc5_n'][self.tier]
-        for l, _, start in cfg['tops']:
+        both = cfg['both_max_n'][self.tier]
+        for l, _, start, weight, _ in cfg['tops']:
             rules = {k: self.rules[k] for k in self.names[l]}
             kstart = self.known['exclude']['start'].get(l) if self.known else None
-            for n in range(0, self.N + 1):
+            for n in range(0, self.Ntop[l] + 1):
+                engines = ['z3', 'cvc5'] if n <= both else ['cvc5']
                 base = dict(top=l, n=n, rules=rules, root=self.tinfo[l]['root'], abnf_text=self.abnf_text, abnf_ext=self.abnf_ext,
                             start=start, known_start=kstart, timeout_s=cfg['timeout_s'][self.tier], seed=self.seed,
-                            k_samples=cfg['k_samples'][self.tier], cvc5=(cv_n and n <= cv_n), work=self.work)
+                            k_samples=cfg['k_samples'][self.tier], engines=engines, work=self.work,
+                            cost=weight * cfg['growth'] ** n)
                 ts.append(dict(base, mode='main'))
                 if kstart:
-                    ts.append(dict(base, mode='confirm', k_samples=0))
-        ts.sort(key=lambda t: -t['n'])
+                    ts.append(dict(base, mode='confirm', k_samples=0, engines=['z3'] if n <= both else ['cvc5'], cost=base['cost'] / 50))
+        ts.sort(key=lambda t: -t['cost'])
         return ts
 
     def run_queries(self):
@@ -288,14 +302,8 @@ class Run:
                 self.inconclusive.append('%s: %s' % (tag, r['reason']))
                 continue
             if st not in ('sat', 'unsat'):
-                self.inconclusive.append('%s: solver answered %s (%s)' % (tag, st, r.get('reason')))
+                self.inconclusive.append('%s: no verdict: %s (%s)' % (tag, st, r.get('reason')))
                 continue
-            cv = r.get('cvc5')
-            if cv:
-                if cv['result'] not in ('sat', 'unsat'):
-                    self.inconclusive.append('%s: cvc5 cross-check gave %r' % (tag, cv['result']))
-                elif cv['result'] != st:
-                    self.inconclusive.append('%s: z3 says %s, cvc5 says %s' % (tag, st, cv['result']))
             # solver-chosen strings: validate both encodings on them
             if r.get('samples'):
                 items = [(r['top'], bytes(s['bytes'])) for s in r['samples']]
@@ -315,11 +323,7 @@ class Run:
                 real_acc = (rv == 'accept')
                 rec = {'property': self.prop, 'top': r['top'], 'bytes': list(w), 'string': repr(w)[2:-1], 'real': rv, 'rfc_derives': rf,
                        'encoder': r['witness_vals'], 'n': r['n'], 'mode': r['mode']}
-                if rv not in ('accept', 'reject', 'parse_error'):
-                    # an exception other than parse_error: violates "no other kind of exception"
-                    rec['kind'] = 'foreign exception'
-                    self.violations.append(rec)
-                elif real_acc != rf:
+                if real_acc != rf:
                     if r['mode'] == 'confirm':
                         confirm_hit.setdefault(r['top'], rec)
                         if r.get('known_subset_of_defect') is False:
@@ -352,14 +356,20 @@ class Run:
                    (r.get('class_sat', {}).get('peg_reject') or r.get('class_sat', {}).get('peg_raise'))]
         nq = sum(len(r.get('queries', [])) for r in res)
         solver_s = round(sum(q['s'] for r in res for q in r.get('queries', [])), 2)
-        obligations = len(res) + sum(1 for r in res if r.get('cvc5'))
-        discharged = sum(1 for r in res if (r['mode'] == 'main' and r['status'] == 'unsat') or (r['mode'] == 'confirm' and r['status'] in ('sat', 'unsat'))) \
-            + sum(1 for r in res if r.get('cvc5') and r['cvc5']['result'] == r['status'])
-        per_query = [{'top': r['top'], 'mode': r['mode'], 'n': r['n'], 'status': r['status'], 'solver_s': r.get('solver_s'),
-                      'bool_nodes': r.get('bool_nodes'), 'peg_table_entries': r.get('peg_memo'), 'rfc_table_entries': r.get('rfc_memo'),
-                      'assertions': r.get('assertions'), 'cvc5': r.get('cvc5'), 'classes_satisfiable': r.get('class_sat'),
+        obligations = sum(max(1, len(r.get('engines', {}))) for r in res)
+        discharged = 0
+        for r in res:
+            for e, v in r.get('engines', {}).items():
+                if (r['mode'] == 'main' and v['result'] == 'unsat') or (r['mode'] == 'confirm' and v['result'] in ('sat', 'unsat')):
+                    discharged += 1
+        per_query = [{'top': r['top'], 'mode': r['mode'], 'n': r['n'], 'status': r['status'], 'engines': r.get('engines'),
+                      'bool_nodes_built': r.get('bool_nodes'), 'formula_dag_nodes': r.get('formula_dag_nodes'),
+                      'peg_table_entries': r.get('peg_table_entries'), 'rfc_table_entries': r.get('rfc_table_entries'),
+                      'assertions': r.get('assertions'), 'classes_satisfiable': r.get('class_sat'),
+                      **({'known_subset_of_defect': r['known_subset_of_defect']} if 'known_subset_of_defect' in r else {}),
                       **({'witness': repr(bytes(r['witness']))[2:-1]} if 'witness' in r else {})} for r in res]
-        samples = list(self.samples_out[:12])
+        self.samples_out.sort(key=lambda s: (-s['n'], s['top']))
+        samples = list(self.samples_out[:10])
         for v in self.violations[:5]:
             samples.append({'VIOLATION': v})
         for t, rec in sorted(getattr(self, 'confirm_hit', {}).items()):
@@ -377,17 +387,16 @@ class Run:
             'samples': samples,
             'obligations': obligations,
             'discharged': discharged,
-            'checker_cmd': 'python3-vt %s %s --tier %s --seed %d  [z3 %s python API, SolverFor(QF_BV)%s]' % (
-                os.path.relpath(__file__, VERIF), self.prop, self.tier, self.seed, z3_version(),
-                '; cvc5 --bitblast=eager on the exported SMT-LIB2 for n <= %d' % cfg['cvc5_n'][self.tier] if cfg['cvc5_n'][self.tier] else ''),
-            'trusted_base': ['z3 %s' % z3_version(), 'cvc5 (cross-check, thorough tier)', 'g++ (dumper and replay runner only)',
+            'checker_cmd': 'python3-vt %s %s --tier %s --seed %d  [n <= %d: z3 %s python API SolverFor(QF_BV) AND cvc5 --bitblast=eager on the SMT-LIB2 export, both must agree; n > %d: cvc5 alone]' % (
+                os.path.relpath(__file__, VERIF), self.prop, self.tier, self.seed, cfg['both_max_n'][self.tier], z3_version(), cfg['both_max_n'][self.tier]),
+            'trusted_base': ['z3 %s' % z3_version(), cvc5_version(), 'g++ (dumper and replay runner only)',
                              'spec/%s (hand transcription of the RFC ABNF)' % cfg['abnf'], 'lib/peg2smt/pegenc.py combinator and atom semantics',
                              'lib/peg2smt/abnf.py derivability encoder (validated per run against lib/peg2smt/recogniser.py)',
                              'PEGTL meta data rule_t/subs_t describing the rule that is actually matched'],
             'functions_encoded': self.allnames if hasattr(self, 'allnames') else [],
             'solver_time_s': solver_s,
             'bounds': {'N_bytes': self.N, 'alphabet': 'all 256 byte values, symbolic', 'lengths': 'every n in 0..N as a separate query (n concrete, bytes symbolic)',
-                       'tops': [l for l, _, _ in cfg['tops']], 'per_query_timeout_s': cfg['timeout_s'][self.tier]},
+                       'N_per_top': self.Ntop, 'per_query_timeout_s': cfg['timeout_s'][self.tier]},
             'explanation': 'Bounded language equality, decided by SMT: the rule structure of the shipped grammar is extracted from the real headers '
                            '(rule_t/subs_t walk, compiled on this run), encoded as the packrat table R_e(i) over a symbolic byte string of length n, '
                            'and compared with CYK-style derivability D_A(i,j) of the RFC ABNF start symbol; for every top rule and every n <= N the query '
@@ -418,7 +427,7 @@ class Run:
                 'atom semantics (one/range/ranges/string/any/eof over peek_char, utf8::range via Unicode Table 3-7, integer maximum_rule as maximal digit run with value <= max) are as written in pegenc.py (real atoms are checked against byte-level specs by C10/C15)',
                 'the byte just past the end of the input is not a decimal digit (integer.hpp maximum_rule peeks one byte past the end: defect D3, property C03); the replay runner parses an exactly sized std::string whose terminator is NUL',
                 'Rule::rule_t / Rule::subs_t describe the match() that is actually run (checked: every rule derives from its rule_t)',
-                'input length <= %d bytes; longer inputs are outside the claim' % self.N,
+                'input length bound per top rule: %s bytes; longer inputs are outside the claim' % json.dumps(self.Ntop),
                 'default action/control (no actions, normal control): raise = parse_error from must<>',
             ],
             'wall_s': round(time.time() - self.t0, 2),
@@ -451,8 +460,15 @@ class Run:
             print('INCONCLUSIVE property=%s reason=%s' % (self.prop, self.inconclusive[0].replace('\n', ' ')[:400]))
         else:
             nq = len(self.results)
-            print('HELD property=%s N=%d queries=%d rules=%d wall=%.0fs' % (self.prop, self.N, nq, len(getattr(self, 'allnames', [])), time.time() - self.t0))
+            print('HELD property=%s N<=%d queries=%d rules=%d wall=%.0fs' % (self.prop, self.N, nq, len(getattr(self, 'allnames', [])), time.time() - self.t0))
         return code
+
+
+def cvc5_version():
+    try:
+        return subprocess.run(['cvc5', '--version'], capture_output=True, text=True).stdout.split('\n')[0].strip()
+    except Exception:
+        return 'cvc5 ?'
 
 
 def z3_version():
